@@ -19,6 +19,9 @@ DEFAULTS = dict(seg="segmentedBoth", maxapdu=50, maxsegs=64, retries=1, window=2
                 apdu_timeout=3000, seg_timeout=2000, app_timeout=3000)
 
 
+BACKGROUND_AT = 3600.0
+
+
 def side(**kw):
     d = dict(DEFAULTS)
     d.update(kw)
@@ -29,7 +32,7 @@ class Cfg(object):
     """Configuration of one system: client side, server side(s), requests."""
 
     def __init__(self, c=None, s=None, reqs=None, answer="now", via="plain", resp_kind="ack", peerinfo=False,
-                 reorder=1, dupcap=1, label=None, views=None, reannounce=None, sidetalk=False):
+                 reorder=1, dupcap=1, label=None, views=None, reannounce=None, sidetalk=False, background=False):
         self.c = side(**(c or {}))
         self.s = side(**(s or {}))
         self.reqs = list(reqs or [(0, 0)])      # (request payload length, response payload length) per request
@@ -48,30 +51,33 @@ class Cfg(object):
         # the client application also sends an unconfirmed request of its own straight to the server (app.request, no
         # IOCB) at an explorer-chosen point while its confirmed requests are under way
         self.sidetalk = sidetalk
+        # the process also has a far-away timer of its own (installed before the requests are submitted), as every real
+        # application has (hourly housekeeping): the task heap then holds more than the transactions' timers
+        self.background = background
 
     def key(self):
         return (tuple(sorted(self.c.items())), tuple(sorted(self.s.items())), tuple(self.reqs), self.answer, self.via,
                 self.resp_kind, self.peerinfo, self.reorder, self.dupcap, repr(sorted(self.views.items())),
-                repr(self.reannounce), self.sidetalk)
+                repr(self.reannounce), self.sidetalk, self.background)
 
     def describe(self):
         def short(d):
             return {k: v for k, v in d.items() if DEFAULTS.get(k) != v}
         return {"client": short(self.c), "server": short(self.s), "reqs": self.reqs, "answer": self.answer,
                 "via": self.via, "resp_kind": self.resp_kind, "peerinfo": self.peerinfo, "views": self.views,
-                "reannounce": self.reannounce, "sidetalk": self.sidetalk}
+                "reannounce": self.reannounce, "sidetalk": self.sidetalk, "background": self.background}
 
     def to_json(self):
         return {"c": self.c, "s": self.s, "reqs": [list(r) for r in self.reqs], "answer": self.answer, "via": self.via,
                 "resp_kind": self.resp_kind, "peerinfo": self.peerinfo, "reorder": self.reorder, "dupcap": self.dupcap,
-                "label": self.label, "views": self.views, "reannounce": self.reannounce, "sidetalk": self.sidetalk}
+                "label": self.label, "views": self.views, "reannounce": self.reannounce, "sidetalk": self.sidetalk, "background": self.background}
 
     @classmethod
     def from_json(cls, d):
         return cls(c=d["c"], s=d["s"], reqs=[tuple(r) for r in d["reqs"]], answer=d["answer"], via=d["via"],
                    resp_kind=d["resp_kind"], peerinfo=d["peerinfo"], reorder=d.get("reorder", 1),
                    dupcap=d.get("dupcap", 1), label=d.get("label"), views=d.get("views"), reannounce=d.get("reannounce"),
-                   sidetalk=d.get("sidetalk", False))
+                   sidetalk=d.get("sidetalk", False), background=d.get("background", False))
 
 
 def _device(name, ident, sd):
@@ -187,6 +193,11 @@ class AppSystem(object):
         vclock.settle()
         if self.cfg.peerinfo == "iam":
             self.announce()
+        if self.cfg.background:
+            from bacpypes.task import OneShotFunction
+            self.background_task = OneShotFunction(lambda: None)
+            self.background_task.suspend_task()
+            self.background_task.install_task(when=BACKGROUND_AT)
         for k, (req_len, resp_len) in enumerate(self.cfg.reqs):
             sn = k + 1
             self.server.resp_len_by_sn[sn] = resp_len
@@ -213,6 +224,10 @@ class AppSystem(object):
         fl = self.wire.inflight
         held = self.server.held if self.cfg.answer == "hold" else []
         nd = vclock.next_due()
+        if self.cfg.background and nd is not None:
+            pend = vclock.pending_tasks()
+            if len(pend) == 1 and pend[0][2] is getattr(self, "background_task", None):
+                nd = None       # only the application's own far-away timer is left: the system is quiescent
         extra = []
         if self.cfg.reannounce and not self.reannounced and (fl or nd is not None):
             extra.append(("reannounce", 1))
@@ -312,7 +327,8 @@ class AppSystem(object):
                 canon(getattr(app, "queue_by_address", None), now, memo),
             ))
         fl = tuple((f.key(), f.copies) for f in self.wire.inflight)
-        tasks = tuple((round(when - now, 6), type(t).__name__) for (when, n, t) in vclock.pending_tasks())
+        tasks = tuple((round(when - now, 6), type(t).__name__) for (when, n, t) in vclock.pending_tasks()
+                      if t is not getattr(self, "background_task", None))
         return (tuple(apps), fl, tasks, round(now, 6))
 
     def wire_frames(self):
